@@ -13,6 +13,9 @@ CONSTANTS
   WithErrors = FALSE
   WithIdle = FALSE
   WithSleep = FALSE
+  WithExpect = FALSE
+  MaxExpect = 0
+  ExpFilters = {}
   WithWalFaults = FALSE
   WithStop = FALSE
   TimeoutTypes = {}
